@@ -391,7 +391,9 @@ func report(o *options, p *Prog, db *ContractDB, units []*Unit, known []KnownFin
 	if nObl == 0 {
 		broken = append(broken, "no obligations generated (vacuous check)")
 	}
-	if o.baseline {
+	if o.baseline && len(broken) > 0 {
+		fmt.Println("baseline NOT written: the check is broken")
+	} else if o.baseline {
 		sort.Strings(discharged)
 		dir := filepath.Join(o.verif, "specs", "baseline")
 		os.MkdirAll(dir, 0o755)
